@@ -402,3 +402,11 @@ mod tests {
         assert!(matches!(err, Details::ConvertI64ToUsize(_, _)));
     }
 }
+
+#[cfg(feature = "verif-hooks")]
+impl<R> Block<'_, R> {
+    /// (items left in the current block, read offset into the block buffer, block buffer length)
+    pub(super) fn verif_state(&self) -> (usize, usize, usize) {
+        (self.message_count, self.buf_idx, self.buf.len())
+    }
+}
